@@ -274,6 +274,14 @@ func runC04(sc *C04Script) *sim.Outcome {
 	// a rotation of the sender's own key shows as sender key id >= 2, a rotation
 	// of the peer's key as recipient key id >= 2
 	o.NonTrivial = s.maxSend >= 2 && s.maxRecip >= 2 && s.maxFly >= 2
+	for p := 0; p < 2; p++ {
+		for _, g := range s.got[p] {
+			if len(g) >= 30000 {
+				o.Class("long-text-delivered")
+				o.NonTrivial = true
+			}
+		}
+	}
 	return o
 }
 
@@ -426,3 +434,26 @@ func pendingAfter(word []C04Op, dir int) int {
 	}
 	return n
 }
+
+// TestProp_C04_Long: texts of tens of kilobytes in both directions, whole and in pieces of several sizes (a long
+// message spends a long time half reassembled at the receiver, and its length fields need more than two bytes).
+func TestProp_C04_Long(t *testing.T) {
+	si, sn := sim.Shard()
+	idx := 0
+	cases := [][2]int{{48000, 200}, {60000, 1400}, {60000, 8000}, {100000, 30000}, {100000, 0}, {70000, 65535}, {33000, 150}, {66000, 2000}}
+	for _, v := range []int{3, 2} {
+		for ci, lf := range cases {
+			idx++
+			if idx%sn != si {
+				continue
+			}
+			sc := &C04Script{Cfg: SessCfg{V: v, SeedA: 31, SeedB: 42, KeyA: 0, KeyB: 3, FragA: lf[1], FragB: lf[1]}}
+			sc.Ops = []C04Op{{K: "s", W: 0, L: 5}, {K: "s", W: ci & 1, L: lf[0], F: ci % 5}, {K: "s", W: 1 - ci&1, L: 7}, {K: "d", W: 0}, {K: "d", W: 1},
+				{K: "s", W: 1 - ci&1, L: lf[0], F: (ci + 1) % 5}, {K: "s", W: ci & 1, L: 9}}
+			sim.Judge(t, "C04long", sc)
+		}
+	}
+	sim.MarkCompleted("C04long", true)
+}
+
+func init() { reg("C04long", runC04) }
